@@ -297,9 +297,32 @@ pub fn c05(tier: Tier) -> i32 {
         }
         Scenario { data: vec![], env: env.clone(), alphabet, positions: true, iterate_failed_sets: false, policy_clauses: false, explore_post: false, strict_after_buffer_limit: false }
     });
+    // (b') the same seeks under a policy that never lets the buffer grow, for capacities that hold
+    // every record: no read after a seek may need (or ask for) growth, so none may fail with BufferLimit
+    let mut scenarios = scenarios;
+    for &format in &[Format::Fasta, Format::Fastq] {
+        for data in hist_inputs(format, Tier::Quick) {
+            let rs = reference(format, &data);
+            let nrec = rs.recs.len();
+            if nrec < 2 || rs.err.is_some() {
+                continue;
+            }
+            let maxext = rs.recs.iter().map(|r| r.extent).max().unwrap();
+            for cap in [maxext + 1, maxext + 2, 2 * maxext, data.len()] {
+                if cap < 3 {
+                    continue;
+                }
+                let env = Env { format, cap, chunk: Chunk::All, int: IntPat::None, policy: PolKind::RefuseAbove(cap), fault: None };
+                let mut alphabet = vec![Op::N, Op::SA];
+                for i in 0..nrec {
+                    alphabet.push(Op::K(i as u8));
+                }
+                scenarios.push(Scenario { data: data.clone(), env, alphabet, positions: true, iterate_failed_sets: false, policy_clauses: true, explore_post: false, strict_after_buffer_limit: false });
+            }
+        }
+    }
     // (c) positions stay true after a failed seek / read: one source failure at every call index,
     // histories continued past the error
-    let mut scenarios = scenarios;
     let n_b = scenarios.len();
     for &format in &[Format::Fasta, Format::Fastq] {
         for data in small_inputs(format, Tier::Quick) {
@@ -330,7 +353,7 @@ pub fn c05(tier: Tier) -> i32 {
         prop: "C05",
         tier,
         state_cap: if tier == Tier::Quick { 3000 } else { 60000 },
-        rule: format!("(a) {} ; (b) explicit-state BFS to fixpoint over {{next, read_record_set, read_record_set_exact(2), seek(position of record i) for EVERY record i and for the invalid FASTQ record}} from every reachable reader state (New, Parsing, Incomplete/Positioned with partial search state, Finished after end / after a parse error), {} scenarios (input x capacity x chunking) so that both the in-buffer shortcut and the real source seek are taken (counted in seeks_in_buffer / seeks_through_source); oracle: after seek(i) all reads behave as the reference stream from record i, position() after next() and after set reads = reference coordinates; (c) {} scenarios with one source failure (read or seek) at every source call index and histories continued past the error: every record returned afterwards is genuine and position() is its true location, and seeks keep landing on the right record", a_rule, n, n_c),
+        rule: format!("(a) {} ; (b) explicit-state BFS to fixpoint over {{next, read_record_set, read_record_set_exact(2), seek(position of record i) for EVERY record i and for the invalid FASTQ record}} from every reachable reader state (New, Parsing, Incomplete/Positioned with partial search state, Finished after end / after a parse error), {} scenarios (input x capacity x chunking) so that both the in-buffer shortcut and the real source seek are taken (counted in seeks_in_buffer / seeks_through_source); oracle: after seek(i) all reads behave as the reference stream from record i, position() after next() and after set reads = reference coordinates; the same under a never-growing policy at capacities that hold every record (no growth request, no BufferLimit after a seek); (c) {} scenarios with one source failure (read or seek) at every source call index and histories continued past the error: every record returned afterwards is genuine and position() is its true location, and seeks keep landing on the right record", a_rule, n, n_c),
         scenarios,
         plain_depth: if tier == Tier::Quick { 4 } else { 5 },
         plain_every: 40,
@@ -693,6 +716,7 @@ pub fn c09(tier: Tier) -> i32 {
             for cap in hist_caps(&data, &rs, tier) {
                 let mut pols = vec![PolKind::Std, PolKind::Plus1, PolKind::DoubleUntil(4), PolKind::RefuseAbove(cap), PolKind::RefuseAbove(maxext + 1), PolKind::Plus1RefuseAbove(maxext.saturating_sub(1).max(cap))];
                 pols.push(PolKind::Limited(4, maxext + 2));
+                pols.push(PolKind::StutterPlus1);
                 pols.dedup();
                 for policy in pols {
                     let env = Env { format, cap, chunk: Chunk::All, int: IntPat::None, policy, fault: None };
@@ -747,7 +771,7 @@ pub fn c09(tier: Tier) -> i32 {
         prop: "C09",
         tier,
         state_cap: if tier == Tier::Quick { 3000 } else { 60000 },
-        rule: format!("(a-c) explicit-state BFS over {{next, owned next, set into A/B, install fresh policy instance, install permissive policy, seek(0)}} for {} scenarios = input x capacity x recording policy in {{Std, +1, DoubleUntil(4), DoubleUntilLimited(4,max+2), refuse-at-once, refuse above max extent+1, +1 refusing above max extent-1}}; oracle on every call: every grow_to argument = current capacity, adopted size = answer (chain), request goes to the installed instance, growth only when a record being parsed has extent >= capacity (histories without exact-count batches), BufferLimit iff the policy refused during that call, stream content per reference model; (a') {} sequential scenarios over every class string of length <= {} x capacity x {{Std,+1}} for next()-only and set-only reading; {} scenarios with 40/200-record inputs whose records fit (no growth however long); (d) built-in policies StdPolicy, DoubleUntil(t), DoubleUntilLimited(t,lim) for all current sizes 0..{} and around 2^23, 2^30, all t,lim in 0..63 and 2^23 against an independently written formula", n_hist, n_class, maxlen, n_long, if tier == Tier::Quick { 1024 } else { 4096 }),
+        rule: format!("(a-c) explicit-state BFS over {{next, owned next, set into A/B, install fresh policy instance, install permissive policy, seek(0)}} for {} scenarios = input x capacity x recording policy in {{Std, +1, DoubleUntil(4), DoubleUntilLimited(4,max+2), refuse-at-once, refuse above max extent+1, +1 refusing above max extent-1, never refusing but answering every other request with the unchanged size}}; oracle on every call: every grow_to argument = current capacity, adopted size = answer (chain), request goes to the installed instance, growth only when a record being parsed has extent >= capacity (histories without exact-count batches), BufferLimit iff the policy refused during that call, stream content per reference model; (a') {} sequential scenarios over every class string of length <= {} x capacity x {{Std,+1}} for next()-only and set-only reading; {} scenarios with 40/200-record inputs whose records fit (no growth however long); (d) built-in policies StdPolicy, DoubleUntil(t), DoubleUntilLimited(t,lim) for all current sizes 0..{} and around 2^23, 2^30, all t,lim in 0..63 and 2^23 against an independently written formula", n_hist, n_class, maxlen, n_long, if tier == Tier::Quick { 1024 } else { 4096 }),
         scenarios,
         plain_depth: 0,
         plain_every: 1,
@@ -800,4 +824,50 @@ pub fn rust_test_for(sc: &Scenario, h: &[Op], rs: &RefStream) -> String {
     }
     t += "}\n";
     t
+}
+
+
+/// C17: (a) error fields for every malformed input x configuration (sweep); (b) the same errors
+/// reached through histories with seeks and record sets (the running line counter must survive them)
+pub fn c17(tier: Tier) -> i32 {
+    let (a_tot, a_rule) = crate::c_inputs::c17a(tier);
+    let mut scenarios = vec![];
+    let format = Format::Fastq;
+    for data in hist_inputs(format, tier).into_iter().chain(long_files(format, true).iter().step_by(if tier == Tier::Quick { 7 } else { 2 }).map(|f| f.bytes())) {
+        let rs = reference(format, &data);
+        if rs.err.is_none() || rs.recs.is_empty() {
+            continue;
+        }
+        let nrec = rs.recs.len();
+        let caps: Vec<usize> = hist_caps(&data, &rs, tier).into_iter().filter(|c| tier == Tier::Thorough || data.len() <= 30 || c % 2 == 1).collect();
+        for cap in caps {
+            let env = Env { format, cap, chunk: Chunk::All, int: IntPat::None, policy: PolKind::Std, fault: None };
+            let mut alphabet = vec![Op::N, Op::SA];
+            if nrec <= 3 {
+                for i in 0..=nrec {
+                    alphabet.push(Op::K(i as u8));
+                }
+            } else {
+                // long files: first two records, the one before the invalid record, the invalid record
+                for i in [0, 1, nrec - 1, nrec] {
+                    alphabet.push(Op::K(i as u8));
+                }
+            }
+            scenarios.push(Scenario { data: data.clone(), env, alphabet, positions: false, iterate_failed_sets: false, policy_clauses: false, explore_post: false, strict_after_buffer_limit: false });
+        }
+    }
+    let n = scenarios.len();
+    run_hist_with(
+        HistCfg {
+            prop: "C17",
+            tier,
+            state_cap: if tier == Tier::Quick { 12000 } else { 60000 },
+            rule: format!("(a) {} ; (b) explicit-state BFS over {{next, read_record_set, seek(record i) for the first records, the last one and the invalid record}} on {} scenarios = FASTQ inputs with an invalid record (every defect kind; short and 4-10 record files) x capacity: whenever the invalid record's error is returned - after any history of reads and seeks through either seek path - all its fields (line, found byte, lengths, id) and the message must be the reference values", a_rule, n),
+            scenarios,
+            plain_depth: 0,
+            plain_every: 1,
+            clauses: None,
+        },
+        Some(a_tot),
+    )
 }
